@@ -6,5 +6,5 @@ CONSTANTS
   SpansOp <- SpansByRank
   Pols <- TinyPols
 SPECIFICATION MCSpec
-INVARIANTS PkConstant SharesVerify ZeroSharingsAreZero BlindedSumIsSecret QualifiedReconstruct
+INVARIANTS PkConstant SharesVerify ZeroSharingsAreZero BlindedSumIsSecret QualifiedReconstruct SignAlgebra
 CHECK_DEADLOCK FALSE
